@@ -232,8 +232,12 @@ class Run:
             self.e.add_bar_source(src)
         for pname in self.bars_by_pair:
             self.e.subscribe_to_bar_events(self.pairs[pname], self._mk_strategy(pname))
-        self.e.subscribe_to_order_events(self.on_order_event)
-        self.e.subscribe_to_order_events(self.on_order_event_2)     # every subscriber gets the same sequence
+        self.polling = bool(sc.get("no_order_events"))
+        if not self.polling:
+            self.e.subscribe_to_order_events(self.on_order_event)
+            self.e.subscribe_to_order_events(self.on_order_event_2)     # every subscriber gets the same sequence
+        # else: a strategy that never subscribes to order events and polls instead - what the exchange reports through
+        # get_order_info / get_orders / get_open_orders must not depend on anybody listening
         self.d.subscribe_all(self.post_sniffer)
         for job in sc.get("jobs", []):
             when = T(job["t"]) + (datetime.timedelta(minutes=30) if job.get("half") else datetime.timedelta(0)) + \
@@ -342,6 +346,13 @@ class Run:
                 else:
                     self.anomalies.append(f"api {op} raised {type(ex).__name__}: {ex}")
                     self.stats["non_basana_exception_from_api"] += 1
+                    # a request either succeeds or is refused with one of the library's own errors: an internal error
+                    # (KeyError, AssertionError, ...) escaping from the public API is neither
+                    for prop in {"repay": ("C07", "C11"), "loan": ("C07", "C10"), "order": ("C07", "C06"),
+                                 "cancel": ("C07", "C05")}.get(op, ("C07",)):
+                        self.v(prop, "internal_error_from_api",
+                               f"{op}({_fmt({k: v for k, v in act.items() if k != 'op'})}) raised {type(ex).__name__}: {ex} "
+                               f"(at {tb[-1].filename.split('/')[-1]}:{tb[-1].lineno})" if tb else f"{op} raised {type(ex).__name__}")
 
     def _pick_order(self, act) -> Optional[str]:
         snap = self.prev
@@ -1055,6 +1066,24 @@ class Run:
                     self.v("C02", "fill_paid_with_funds_reserved_for_other_orders",
                            f"{s}: only {snap.hold(s)} left on hold while the open orders' reservations minus what they "
                            f"have spent sum to at least {val} at {where}")
+        # ---- the price the exchange works with (estimates, margin valuation) is the close of the pair's last bar,
+        # whatever that bar's volume: the bar of this very clock value may or may not have been seen yet
+        if snap.clock is not None:
+            for pname, px in snap.prices.items():
+                le = lt = None
+                for bar in self.bars_by_pair.get(pname, []):
+                    if bar[0] <= snap.clock:
+                        le = bar[4]
+                        if bar[0] < snap.clock:
+                            lt = bar[4]
+                    else:
+                        break
+                self.stats["price_checks"] += 1
+                if le is not None and px not in (le, lt):
+                    for prop in ("C10", "C06"):
+                        self.v(prop, "price_is_not_the_last_close",
+                               f"{pname}: the exchange quotes {px} at {snap.clock} but the last bar closed at {le}"
+                               f"{' (the one before at ' + str(lt) + ')' if lt is not None and lt != le else ''}")
         # ---- C11: loans
         if not snap.loans_stale and not (self.prev is not None and self.prev.loans_stale):
             self.check_loans(snap, interval)
@@ -1313,6 +1342,11 @@ class Run:
         """Offline checkers over the recorded logs (events per order, polled state sequences)."""
         end = self.prev
         assert end is not None
+        if self.polling:
+            self.stats["polling_runs"] += 1
+            if self.events1 or self.events2:
+                self.v("C05", "event_without_subscription", "order events delivered although nobody subscribed")
+            return
         if self.events1 != self.events2:
             self.v("C05", "subscribers_see_different_events",
                    f"first subscriber got {len(self.events1)} order events, second {len(self.events2)} (or in another order)")
